@@ -154,7 +154,12 @@ func (w *world) makeGenesis() (*genesis.Document, error) {
 		ledger[addr] = a
 	}
 	for i, v := range w.vals {
-		add(staking.NewAddress(v.ent.ID), 1_000_000, uint64(100_000*(i+1)))
+		// validators 1 and 2 are tied at the bottom; with MaxValidators = 3 the election has to break the tie
+		stake := uint64(100_000 * (i + 1))
+		if i < 2 {
+			stake = 100_000
+		}
+		add(staking.NewAddress(v.ent.ID), 1_000_000, stake)
 	}
 	for i, s := range w.accts {
 		add(staking.NewAddress(s.Public()), 5_000_000+uint64(i)*1000, 0)
